@@ -294,14 +294,19 @@ func runPoller(chk *vcommon.Check, thorough bool) {
 	}
 	rec(nil)
 	n := 0
-	type holding struct{ have, gain int }
-	for _, hg := range []holding{{0, 0}, {2, 0}, {0, 3}, {1, 2}} { // certificates the client holds when the poller is created + gained locally before the poll
+	type holding struct{ have, gain, during int }
+	// certificates the client holds when the poller is created + gained locally before the poll + gained locally
+	// (the node's own consensus finalizes them) while the first request is in flight
+	for _, hg := range []holding{{0, 0, 0}, {2, 0, 0}, {0, 3, 0}, {1, 2, 0}, {0, 0, 1}, {0, 0, 2}, {1, 0, 3}, {1, 1, 2}} {
 		have := hg.have + hg.gain
 		for _, peerHasInit := range []int{0, 1, 3, total} {
 			for _, script := range scripts {
 				peerHas := peerHasInit
 				if hg.gain > 0 && len(script) > 1 {
 					continue // local gains are combined with single-behaviour scripts only
+				}
+				if hg.during > 0 && (len(script) > 1 || (script[0] != "honest" && script[0] != "one-at-a-time") || peerHasInit < have+hg.during) {
+					continue // gains during the request: honest peers that hold at least as much
 				}
 				n++
 				st := newStore(0, chain[:hg.have])
@@ -397,6 +402,19 @@ func runPoller(chk *vcommon.Check, thorough bool) {
 					for _, c := range certsOut {
 						rep.Blobs = append(rep.Blobs, blob(c))
 					}
+					if step == 1 && hg.during > 0 {
+						// while this request is in flight the node's own consensus finalizes the next instances
+						rep.Before = func() {
+							for _, c := range chain[have : have+hg.during] {
+								if err := st.Put(bg, c); err != nil {
+									panic(err)
+								}
+							}
+						}
+						if v := uint64(have + hg.during); info.validUpTo < v {
+							info.validUpTo = v
+						}
+					}
 					return rep
 				}
 				resp.Start()
@@ -413,8 +431,8 @@ func runPoller(chk *vcommon.Check, thorough bool) {
 				}
 				before := uint64(have)
 				res, err := p.Poll(bg, peerHost.ID())
-				rep := map[string]any{"kind": "poller", "client_has": hg.have, "gained_locally": hg.gain, "peer_has": peerHas, "script": script}
-				where := fmt.Sprintf("client holds %d (+%d gained locally before the poll), peer holds %d, script %v", hg.have, hg.gain, peerHas, script)
+				rep := map[string]any{"kind": "poller", "client_has": hg.have, "gained_locally": hg.gain, "gained_locally_during_request": hg.during, "peer_has": peerHas, "script": script}
+				where := fmt.Sprintf("client holds %d (+%d gained locally before the poll, +%d while the first request is in flight), peer holds %d, script %v", hg.have, hg.gain, hg.during, peerHas, script)
 				if err != nil {
 					chk.Violation("poll-internal-error", fmt.Sprintf("%s: Poll returned error %v", where, err), rep)
 					return
@@ -443,8 +461,8 @@ func runPoller(chk *vcommon.Check, thorough bool) {
 					chk.Violation("poller-next-instance-not-store-advance", fmt.Sprintf("%s: poller NextInstance=%d but the store's next instance is %d", where, p.NextInstance, latest), rep)
 					return
 				}
-				if res.NewCertificates != latest-before {
-					chk.Violation("poller-miscounts-new-certificates", fmt.Sprintf("%s: reported %d new certificates, store advanced by %d", where, res.NewCertificates, latest-before), rep)
+				if res.NewCertificates != latest-before-uint64(hg.during) {
+					chk.Violation("poller-miscounts-new-certificates", fmt.Sprintf("%s: reported %d new certificates, store advanced by %d of which %d locally", where, res.NewCertificates, latest-before, hg.during), rep)
 					return
 				}
 				// classification (conservative subset of the statement)
@@ -517,7 +535,7 @@ func main() {
 		runPoller(chk, thorough)
 	}
 	chk.Set("exhaustive", chk.Violations() == 0)
-	chk.Set("rule", "server: every store of length 0..5 (7) with first instance 0 and 5 x first in {0..len+2, 2^64-2, 2^64-1} x limit in {0,1,2,len,256,257,2^64-1} x power-table flag, read both with a raw stream reader (everything on the wire) and with the production client; poller: every script of <=2 (3) responder behaviours out of 12 (honest, forged signature, wrong delta, reordered, duplicated, gap, truncated, over-long, pending too high/low, reset, one-at-a-time) x client holding {0,2} (or gaining 3 / 2 certificates locally between poller creation and poll) x peer holding {0,1,3,6} certificates against the real Poller")
+	chk.Set("rule", "server: every store of length 0..5 (7) with first instance 0 and 5 x first in {0..len+2, 2^64-2, 2^64-1} x limit in {0,1,2,len,256,257,2^64-1} x power-table flag, read both with a raw stream reader (everything on the wire) and with the production client; poller: every script of <=2 (3) responder behaviours out of 12 (honest, forged signature, wrong delta, reordered, duplicated, gap, truncated, over-long, pending too high/low, reset, one-at-a-time) x client holding {0,2} (or gaining 3 / 2 certificates locally between poller creation and poll, or 1-3 while the first request to an honest peer is in flight) x peer holding {0,1,3,6} certificates against the real Poller")
 	chk.Assume("mocknet streams; fake signing backend; the poller is driven through its public API")
 	chk.Finish()
 }
